@@ -325,6 +325,13 @@ func Gen(prop, tier string, seed uint64) *kernel.Plan {
 			}
 			evs = append(evs, e)
 		}
+		if (prop == "C16" || prop == "C19" || prop == "C12") && g.Chance(1, 12) {
+			k := "restkey"
+			if g.Chance(1, 2) {
+				k = c.keys[g.Intn(len(c.keys))]
+			}
+			evs = append(evs, Ev{T: "parpatch", A: a, K: k, S: g.U64() % 100000})
+		}
 		if (prop == "C05" || prop == "C06" || prop == "C08" || prop == "C07") && g.Chance(1, 40) {
 			evs = append(evs, Ev{T: "burst", A: a, D: g.Intn(3), N: g.Intn(150)})
 		}
